@@ -200,7 +200,7 @@ def check_one(m, only):
     return m['id'], res
 
 
-def check(jobs, only, limit):
+def check(jobs, only, limit, cap=0):
     ms = json.load(open(WORK + '/mutants.json'))
     su = json.load(open(WORK + '/suite.json'))
     done = {}
@@ -225,6 +225,13 @@ def check(jobs, only, limit):
             if byfile[f]:
                 ordered.append(byfile[f].pop(0))
     todo = ordered
+    if cap:
+        n, capped, later = {}, [], []
+        for m in todo:
+            k = (m['file'], m['func'])
+            n[k] = n.get(k, 0) + 1
+            (capped if n[k] <= cap else later).append(m)
+        todo = capped
     if limit: todo = todo[:limit]
     print('to check', len(todo), flush=True)
     t0 = time.time()
@@ -274,5 +281,5 @@ if __name__ == '__main__':
     limit = int(sys.argv[sys.argv.index('--limit') + 1]) if '--limit' in sys.argv else 0
     if cmd == 'gen': gen()
     elif cmd == 'suite': suite(jobs)
-    elif cmd == 'check': check(jobs, only, limit)
+    elif cmd == 'check': check(jobs, only, limit, int(sys.argv[sys.argv.index('--cap') + 1]) if '--cap' in sys.argv else 0)
     elif cmd == 'report': report()
